@@ -13,7 +13,7 @@ from fractions import Fraction
 from ..model import qual, get_kw
 from ..own import Ownership
 from ..symx import Expander, TupleV, ref_eval
-from ..anf import R
+from ..anf import R, Unsupported
 from .. import anf
 from .common import memo_obligations, dtype_hazard_obligations, default_instance_obligations, struct_ob, formula_ob, guard, last_return, U
 from .C03 import ownership_obligations
